@@ -12,6 +12,10 @@
 (* and relative orientation.  The only action is a rigid motion of one     *)
 (* whole tomogram (both lists): p -> Q p + v, R -> Q R.                    *)
 (*                                                                         *)
+(* Tomograms and subtomogram numbers are identifiers: only equality counts.  *)
+(* The driver names the tomograms 1, 2, 3 of the scopes by arbitrary numbers  *)
+(* (0, large consecutive numbers such as 240115 / 240116, 999999 / 1000000). *)
+(*                                                                         *)
 (* Distance ties are excluded by the property; Init only admits tie-free   *)
 (* configurations (rigid motions preserve that).                           *)
 (***************************************************************************)
